@@ -3,6 +3,13 @@
 //! the Lean checker `RbModel.Wf` (proved sound in Thm/C15.lean); the inferred stack-shape
 //! certificate is then re-checked dynamically against the real VM's stack depths at every
 //! executed instruction (per-instruction hook).
+//!
+//! Since the VM restores recorded heights at `PopRet` / `Return` (fa4a0f0, 64a41ef, 8f09b9b) the verdict
+//! on the certificate is that of `RbModel.WfMarks.checkCertM` (request `wfm.check`; proved sound in
+//! Thm/C15Marks.lean); the old checker is still run and may differ from it in one way only: it refuses a
+//! `Return` at non-zero relative depth.  The global machine of Thm/C15Marks.lean is then run by the driver
+//! (`wfm.run`) on the real list along the pcs the real VM visited: its absolute depths and its two address
+//! stacks are compared with the real ones before every executed instruction, across every restoring exit.
 
 use std::cell::RefCell;
 use std::rc::Rc;
@@ -24,6 +31,25 @@ struct Depth {
     c: i64,
     p: i64,
     b: i64,
+}
+
+/// what the per-instruction hook shows before one executed instruction
+struct Snap {
+    pc: usize,
+    d: Depth,
+    rets: Vec<usize>,
+    gosubs: Vec<usize>,
+    err_code: Option<i32>,
+    err_addr: Option<usize>,
+    /// 0 = none, 1 = resume next, 2 = address
+    handler_kind: u8,
+    handler_address: usize,
+}
+
+impl Snap {
+    fn err(&self) -> bool {
+        self.err_code.is_some() || self.err_addr.is_some()
+    }
 }
 
 fn parse_cert(ans: &str) -> (Vec<bool>, String, Vec<Option<Depth>>) {
@@ -63,6 +89,345 @@ fn parse_cert(ans: &str) -> (Vec<bool>, String, Vec<Option<Depth>>) {
     }
 }
 
+/// `(wfm r u t l a c s n ok (<h>|- ...))` or `(wfm ... (fail kind pc) ())` ->
+/// (six flags, popRetStrict flag (None without a certificate), reliant returns, status, certificate)
+fn parse_cert_m(ans: &str) -> (Vec<bool>, Option<bool>, u64, String, Vec<Option<Depth>>) {
+    let inner = ans.trim().trim_start_matches("(wfm ").trim_end_matches(')');
+    let mut it = inner.splitn(9, ' ');
+    let flags: Vec<bool> = (0..6).map(|_| it.next().unwrap_or("f") == "t").collect();
+    let strict = match it.next().unwrap_or("-") {
+        "t" => Some(true),
+        "f" => Some(false),
+        _ => None,
+    };
+    let reliant: u64 = it.next().unwrap_or("0").parse().unwrap_or(0);
+    let rest = it.next().unwrap_or("");
+    // the tail has the shape of the old answer's tail
+    let (_, status, cert) = parse_cert(&format!("(wf t t t t t t {})", rest));
+    (flags, strict, reliant, status, cert)
+}
+
+/// Directed family for the exits that the VM restores: procedures (SUB / FUNCTION, the function called with an
+/// operand pending: `PRINT 100 + F%(2)`) whose bodies issue GOSUBs from inside FOR / SELECT CASE / both, the
+/// routines leaving by RETURN or EXIT SUB / FUNCTION from inside their own FOR / SELECT CASE / both (possibly
+/// through a second, nested routine); the same at module level, with `RETURN label` from a GOSUB issued inside a
+/// loop; now and then a RETURN executed in a procedure while only a caller has a GOSUB pending (the modelled run
+/// ends there).  Every loop runs at most twice; every program terminates.
+fn marks_program(rng: &mut Rng) -> String {
+    struct G<'a> {
+        rng: &'a mut Rng,
+        n: u32,
+    }
+    impl G<'_> {
+        fn fresh(&mut self, p: &str) -> String {
+            self.n += 1;
+            format!("{}{}", p, self.n)
+        }
+        /// wraps `body` into `depth` nested FOR / SELECT CASE blocks (outermost first in `kinds`)
+        fn wrap(&mut self, depth: u32, body: Vec<String>) -> Vec<String> {
+            let mut cur = body;
+            for _ in 0..depth {
+                let mut out = vec![];
+                match self.rng.below(5) {
+                    0 | 1 => {
+                        let v = self.fresh("I");
+                        out.push(format!("FOR {}% = 1 TO 2", v));
+                        out.extend(cur.into_iter().map(|l| format!("  {}", l)));
+                        out.push("NEXT".to_owned());
+                    }
+                    2 | 3 => {
+                        let k = self.rng.range(1, 2);
+                        out.push(format!("SELECT CASE {}", k));
+                        if self.rng.chance(1, 2) {
+                            out.push(format!("CASE {}", k));
+                            out.extend(cur.into_iter().map(|l| format!("  {}", l)));
+                            out.push("CASE ELSE".to_owned());
+                            out.push("  PRINT \"e\"".to_owned());
+                        } else {
+                            out.push(format!("CASE {}", k + 5));
+                            out.push("  PRINT \"n\"".to_owned());
+                            out.push("CASE ELSE".to_owned());
+                            out.extend(cur.into_iter().map(|l| format!("  {}", l)));
+                        }
+                        out.push("END SELECT".to_owned());
+                    }
+                    _ => {
+                        let v = self.fresh("W");
+                        out.push(format!("{}% = 0", v));
+                        out.push(format!("WHILE {}% < 2", v));
+                        out.push(format!("  {}% = {}% + 1", v, v));
+                        out.extend(cur.into_iter().map(|l| format!("  {}", l)));
+                        out.push("WEND".to_owned());
+                    }
+                }
+                cur = out;
+            }
+            cur
+        }
+        /// a routine: label, wrapped exit statement(s), final RETURN; may call a second routine that exits
+        fn routine(&mut self, label: &str, exit_kw: Option<&str>, extra: &mut Vec<Vec<String>>, level: u32) -> Vec<String> {
+            let mut inner = vec![format!("C% = C% + 1")];
+            let choice = self.rng.below(if exit_kw.is_some() { 6 } else { 4 });
+            match (choice, exit_kw) {
+                (0, _) | (1, _) => inner.push("RETURN".to_owned()),
+                (2, _) => {
+                    inner.push("IF C% MOD 2 = 0 THEN RETURN".to_owned());
+                    inner.push("PRINT \"odd\"".to_owned());
+                }
+                (3, _) if level < 2 => {
+                    // a nested routine decides
+                    let l2 = self.fresh("Rt");
+                    inner.push(format!("GOSUB {}", l2));
+                    let r2 = self.routine(&l2, exit_kw, extra, level + 1);
+                    extra.push(r2);
+                }
+                (3, _) => inner.push("RETURN".to_owned()),
+                (4, Some(kw)) => inner.push(format!("EXIT {}", kw)),
+                (_, Some(kw)) => {
+                    inner.push(format!("IF N% = 2 THEN EXIT {}", kw));
+                    inner.push("RETURN".to_owned());
+                }
+                (_, None) => inner.push("RETURN".to_owned()),
+            }
+            let d = self.rng.below(4) as u32;
+            let mut out = vec![format!("{}:", label)];
+            out.extend(self.wrap(d, inner));
+            out.push("RETURN".to_owned());
+            out
+        }
+    }
+    let mut g = G { rng, n: 0 };
+    let is_function = g.rng.chance(1, 2);
+    let kw = if is_function { "FUNCTION" } else { "SUB" };
+    let mut lines = vec![];
+    if is_function {
+        lines.push("DECLARE FUNCTION F% (N%)".to_owned());
+    } else {
+        lines.push("DECLARE SUB S (N%)".to_owned());
+    }
+    lines.push("C% = 0".to_owned());
+    // the caller
+    let arg = g.rng.range(1, 2);
+    let call = if is_function {
+        match g.rng.below(3) {
+            0 => format!("PRINT 100 + F%({})", arg),
+            1 => format!("V% = 100 + F%({}) - 100 : PRINT V%", arg),
+            _ => format!("PRINT F%({}) * 2 + F%({})", arg, 3 - arg),
+        }
+    } else {
+        format!("S {}", arg)
+    };
+    let mut main_routines: Vec<Vec<String>> = vec![];
+    let mut caller = vec![call];
+    if g.rng.chance(1, 2) {
+        let l = g.fresh("Mr");
+        caller.push(format!("GOSUB {}", l));
+        let mut extra = vec![];
+        let r = g.routine(&l, None, &mut extra, 0);
+        main_routines.push(r);
+        main_routines.extend(extra);
+    }
+    let through_gosub = g.rng.chance(1, 4);
+    let d = g.rng.below(3) as u32;
+    let wrapped = g.wrap(d, caller);
+    if through_gosub {
+        // the call itself sits in a module-level routine
+        let l = g.fresh("Mc");
+        lines.push(format!("GOSUB {}", l));
+        let mut r = vec![format!("{}:", l)];
+        r.extend(wrapped);
+        r.push("RETURN".to_owned());
+        main_routines.push(r);
+    } else {
+        lines.extend(wrapped);
+    }
+    // RETURN label from a GOSUB issued inside a loop
+    if g.rng.chance(1, 3) {
+        let l = g.fresh("Mj");
+        let target = g.fresh("Lb");
+        let ds = 1 + g.rng.below(2) as u32;
+        let site = g.wrap(ds, vec![format!("GOSUB {}", l), "PRINT \"not here\"".to_owned()]);
+        lines.extend(site);
+        lines.push(format!("{}:", target));
+        lines.push("PRINT \"at label\"".to_owned());
+        let inner = vec![format!("RETURN {}", target)];
+        let dd = g.rng.below(3) as u32;
+        let mut r = vec![format!("{}:", l)];
+        r.extend(g.wrap(dd, inner));
+        r.push("RETURN".to_owned());
+        main_routines.push(r);
+    }
+    lines.push("PRINT \"done\"; C%".to_owned());
+    lines.push("END".to_owned());
+    for r in main_routines {
+        lines.extend(r);
+    }
+    // the procedure
+    let stray_return = g.rng.chance(1, 16);
+    if is_function {
+        lines.push("FUNCTION F% (N%)".to_owned());
+        lines.push("  F% = 7".to_owned());
+    } else {
+        lines.push("SUB S (N%)".to_owned());
+    }
+    let mut extra = vec![];
+    let l = g.fresh("Rt");
+    let d = g.rng.below(4) as u32;
+    let site = g.wrap(d, vec![format!("GOSUB {}", l), "D% = D% + 1".to_owned()]);
+    lines.extend(site.into_iter().map(|x| format!("  {}", x)));
+    if stray_return && through_gosub {
+        // only the caller has a GOSUB pending here
+        lines.push("  RETURN".to_owned());
+    }
+    lines.push(format!("  EXIT {}", kw));
+    let r = g.routine(&l, Some(kw), &mut extra, 0);
+    lines.extend(r.into_iter().map(|x| format!("  {}", x)));
+    for r in extra {
+        lines.extend(r.into_iter().map(|x| format!("  {}", x)));
+    }
+    lines.push(format!("END {}", kw));
+    lines.join("\n") + "\n"
+}
+
+/// Family `faults`: ONE failing expression (division by zero, subscript out of range, overflow) at every
+/// expression position of every construct, each construct at the module level, inside a SELECT CASE block, inside a
+/// FOR body, inside a GOSUB routine called from a FOR body, inside a function called with an operand pending, and
+/// inside FOR + SELECT CASE in such a function; under ON ERROR RESUME NEXT, under a handler ending in RESUME NEXT and
+/// under a handler that repairs the cause and ends in RESUME.  Loops repair the cause themselves after two rounds,
+/// so every program terminates.  Returns (name of the combination, program).
+fn fault_programs() -> Vec<(String, String)> {
+    let repair = "Z% = 1 : Z9% = 1 : W% = 1";
+    let body = ["C% = C% + 1".to_owned(), format!("IF C% >= 2 THEN {}", repair)];
+    let faults: [(&str, &str); 3] = [("div0", "(1 / Z%)"), ("subscript", "A%(Z9%)"), ("overflow", "(W% + W%)")];
+    // (position, lines with {E} for the failing expression and {B} for a loop body)
+    let constructs: Vec<(&str, Vec<&str>)> = vec![
+        ("for-from", vec!["FOR I% = {E} TO 2", "{B}", "NEXT"]),
+        ("for-to", vec!["FOR I% = 1 TO {E}", "{B}", "NEXT"]),
+        ("for-step", vec!["FOR I% = 1 TO 2 STEP {E}", "{B}", "NEXT"]),
+        ("select-selector", vec!["SELECT CASE {E}", "CASE 1", "PRINT \"one\"", "CASE ELSE", "PRINT \"else\"", "END SELECT"]),
+        ("case-item", vec!["SELECT CASE 2", "CASE {E}", "PRINT \"a\"", "CASE 2", "PRINT \"b\"", "END SELECT"]),
+        ("case-item-second", vec!["SELECT CASE 2", "CASE 7, {E}", "PRINT \"a\"", "CASE ELSE", "PRINT \"b\"", "END SELECT"]),
+        ("case-range", vec!["SELECT CASE 2", "CASE 1 TO {E}", "PRINT \"a\"", "CASE ELSE", "PRINT \"b\"", "END SELECT"]),
+        ("case-is", vec!["SELECT CASE 2", "CASE IS > {E}", "PRINT \"a\"", "CASE 2", "PRINT \"b\"", "END SELECT"]),
+        ("case-block-statement", vec!["SELECT CASE 2", "CASE 2", "V% = 100 + {E}", "PRINT \"b\"", "END SELECT"]),
+        ("if-cond", vec!["IF {E} > 0 THEN", "PRINT \"t\"", "ELSE", "PRINT \"f\"", "END IF"]),
+        ("elseif-cond", vec!["IF C% > 100 THEN", "PRINT \"t\"", "ELSEIF {E} > 0 THEN", "PRINT \"ei\"", "ELSE", "PRINT \"f\"", "END IF"]),
+        ("if-single-line", vec!["IF {E} > 0 THEN PRINT \"t\" ELSE PRINT \"f\""]),
+        ("while-cond", vec!["WHILE {E} > 5 OR C% < 2", "{B}", "WEND"]),
+        ("do-while-top", vec!["DO WHILE {E} > 5 OR C% < 2", "{B}", "LOOP"]),
+        ("do-until-top", vec!["DO UNTIL {E} < 5 AND C% >= 2", "{B}", "LOOP"]),
+        ("loop-while-bottom", vec!["DO", "{B}", "LOOP WHILE {E} > 5 OR C% < 2"]),
+        ("loop-until-bottom", vec!["DO", "{B}", "LOOP UNTIL {E} < 5 AND C% >= 2"]),
+        ("assign-rhs", vec!["V% = 100 + {E}"]),
+        ("assign-subscript", vec!["A%({E}) = 5"]),
+        ("rhs-subscript", vec!["V% = 100 + A%({E})"]),
+        ("print-item", vec!["PRINT 100 + {E}"]),
+        ("print-item-second", vec!["PRINT \"x\"; {E}; \"y\""]),
+        ("sub-argument", vec!["P {E}"]),
+        ("function-argument", vec!["V% = 100 + G%({E})"]),
+        ("built-in-argument", vec!["V% = 100 + LEN(STR$({E}))"]),
+        ("for-body-statement", vec!["FOR I% = 1 TO 2", "V% = 100 + {E}", "PRINT \"in body\"", "NEXT"]),
+    ];
+    let contexts = ["top", "in-select", "in-for", "in-gosub-in-for", "in-function", "in-for-select-in-function"];
+    let modes = ["resume-next-mode", "handler-resume-next", "handler-repair-resume"];
+    let mut out = vec![];
+    for (pos, lines) in constructs.iter() {
+        for (fname, fexpr) in faults.iter() {
+            for ctx in contexts.iter() {
+                for mode in modes.iter() {
+                    let mut k: Vec<String> = vec![];
+                    for l in lines.iter() {
+                        if *l == "{B}" {
+                            k.extend(body.iter().cloned());
+                        } else {
+                            k.push(l.replace("{E}", fexpr));
+                        }
+                    }
+                    let ind = |v: Vec<String>| -> Vec<String> { v.into_iter().map(|l| format!("  {}", l)).collect() };
+                    let in_select = |v: Vec<String>| -> Vec<String> {
+                        let mut r = vec!["SELECT CASE 3".to_owned(), "CASE 3".to_owned()];
+                        r.extend(ind(v));
+                        r.push("  PRINT \"after, in case\"".to_owned());
+                        r.push("CASE ELSE".to_owned());
+                        r.push("  PRINT \"e\"".to_owned());
+                        r.push("END SELECT".to_owned());
+                        r
+                    };
+                    let in_for = |v: Vec<String>| -> Vec<String> {
+                        let mut r = vec!["FOR O% = 1 TO 2".to_owned()];
+                        r.extend(ind(v));
+                        r.push("  PRINT \"after, in for\"; O%".to_owned());
+                        r.push("NEXT".to_owned());
+                        r
+                    };
+                    let mut p: Vec<String> = vec![
+                        "DECLARE SUB P (N%)".to_owned(),
+                        "DECLARE FUNCTION G% (N%)".to_owned(),
+                        "DECLARE FUNCTION F% (N%)".to_owned(),
+                        "DIM SHARED Z%, Z9%, W%, C%".to_owned(),
+                        "DIM SHARED A%(1 TO 3)".to_owned(),
+                        "A%(1) = 1 : A%(2) = 2 : A%(3) = 3".to_owned(),
+                        "Z% = 0 : Z9% = 9 : W% = 32000".to_owned(),
+                    ];
+                    p.push(if *mode == "resume-next-mode" { "ON ERROR RESUME NEXT".to_owned() } else { "ON ERROR GOTO Hh".to_owned() });
+                    let mut routines: Vec<String> = vec![];
+                    let mut fbody: Vec<String> = vec!["PRINT \"in F\"".to_owned()];
+                    match *ctx {
+                        "top" => p.extend(k),
+                        "in-select" => p.extend(in_select(k)),
+                        "in-for" => p.extend(in_for(k)),
+                        "in-gosub-in-for" => {
+                            p.extend(in_for(vec!["GOSUB Rr".to_owned()]));
+                            routines.push("Rr:".to_owned());
+                            routines.extend(k);
+                            routines.push("PRINT \"after, in routine\"".to_owned());
+                            routines.push("RETURN".to_owned());
+                        }
+                        "in-function" => {
+                            p.push("PRINT 100 + F%(2)".to_owned());
+                            fbody.extend(k);
+                            fbody.push("PRINT \"after, in F\"".to_owned());
+                        }
+                        _ => {
+                            p.extend(in_for(vec!["PRINT 100 + F%(2)".to_owned()]));
+                            fbody.extend(in_for(in_select(k)));
+                        }
+                    }
+                    p.push(repair.to_owned());
+                    p.push("PRINT \"end\"; C%; V%".to_owned());
+                    p.push("END".to_owned());
+                    p.extend(routines);
+                    match *mode {
+                        "handler-resume-next" => {
+                            p.push("Hh:".to_owned());
+                            p.push("PRINT \"h\"; ERR".to_owned());
+                            p.push("RESUME NEXT".to_owned());
+                        }
+                        "handler-repair-resume" => {
+                            p.push("Hh:".to_owned());
+                            p.push(repair.to_owned());
+                            p.push("RESUME".to_owned());
+                        }
+                        _ => {}
+                    }
+                    p.push("SUB P (N%)".to_owned());
+                    p.push("  C% = C% + N%".to_owned());
+                    p.push("END SUB".to_owned());
+                    p.push("FUNCTION G% (N%)".to_owned());
+                    p.push("  G% = N% + 1".to_owned());
+                    p.push("END FUNCTION".to_owned());
+                    p.push("FUNCTION F% (N%)".to_owned());
+                    p.push("  F% = 7".to_owned());
+                    p.extend(ind(fbody));
+                    p.push("END FUNCTION".to_owned());
+                    out.push((format!("{}/{}/{}/{}", pos, fname, ctx, mode), p.join("\n") + "\n"));
+                }
+            }
+        }
+    }
+    out
+}
+
 fn shape_signature(text: &str) -> String {
     // construct multiset: which statement keywords occur
     let u = text.to_ascii_uppercase();
@@ -76,15 +441,58 @@ fn shape_signature(text: &str) -> String {
     s
 }
 
+/// asks the driver to run the global machine on the collected traces and records the verdicts
+fn flush_runs(rep: &mut Report, run_reqs: &mut Vec<(String, String)>) {
+    let reqs: Vec<String> = run_reqs.iter().map(|(_, r)| r.clone()).collect();
+    let answers = ask(&reqs);
+    for ((text, _), ans) in run_reqs.iter().zip(answers.iter()) {
+        rep.bump("dynamic.marks.programs-run");
+        if ans.starts_with("(ok ") {
+            let n: u64 = ans.trim_start_matches("(ok ").trim_end_matches(')').parse().unwrap_or(0);
+            rep.bump_by("dynamic.marks.instructions-agreeing", n);
+        } else if ans.starts_with("(blocked ") {
+            // the modelled run ended while the real one went on: legitimate only for the listed events
+            let why = ans.trim_end_matches(')').rsplit(' ').next().unwrap_or("").to_owned();
+            rep.bump(&format!("dynamic.marks.blocked.{}", why));
+            if why != "return-without-gosub-frame" && why != "end-of-modelled-run" {
+                rep.fail(Failure {
+                    kind: Kind::ImplVsProperty,
+                    signature: format!("dynamic:marks-machine-blocked:{}", why),
+                    input: text.clone(),
+                    implementation: format!("the real VM went on where the machine has no step: {}", ans),
+                    expected: "generated code never reaches a stray PushRet, a PopRet without a call frame or an unresolved target".into(),
+                    note: String::new(),
+                });
+            }
+        } else {
+            let what = ans.trim_start_matches("(differ ").split(' ').nth(1).unwrap_or("?").to_owned();
+            rep.fail(Failure {
+                kind: if what == "depths" || what == "address-stacks" { Kind::ImplVsProperty } else { Kind::ModelVsImpl },
+                signature: format!("dynamic:marks-machine-differs:{}", what),
+                input: text.clone(),
+                implementation: format!("driver answer {} (observation index, what, the machine's pc, depths, return addresses, GOSUB addresses)", ans.chars().take(300).collect::<String>()),
+                expected: "the global machine with recorded heights (Thm/C15Marks.lean) and the real VM agree on pc, the five absolute depths and both address stacks before every executed instruction".into(),
+                note: "depths / address-stacks: the real VM does not restore / balance as the machine does; otherwise the machine's transcription of the VM is off".into(),
+            });
+        }
+    }
+    run_reqs.clear();
+}
+
 fn main() {
     std::panic::set_hook(Box::new(|_| {}));
     let mut rng = Rng::from_env();
     let mut rep = Report::new(
         "C15",
         "programs = every string literal of /repo's Rust sources that parses and lints (the repository's own test programs) + \
-         fixtures + type-directed random programs (nesting <= 3, subs/functions, GOSUB, forward GOTO, DATA/READ, all loop forms); for each: \
-         the real instruction list is checked statically by the proved Lean checker, then the inferred stack-depth certificate is \
-         compared with the real VM's five stack depths before every executed instruction. distinct = distinct program texts; \
+         fixtures + type-directed random programs (nesting <= 3, subs/functions, GOSUB, forward GOTO, DATA/READ, all loop forms) + \
+         position grids + the directed family `marks` (GOSUB routines of procedures and of the module left by RETURN / EXIT SUB / \
+         EXIT FUNCTION / RETURN label from inside their own FOR / SELECT CASE / WHILE nests, GOSUBs issued inside such nests, functions \
+         called with an operand pending); for each: \
+         the real instruction list is checked statically by the proved Lean checkers (wfm.check; wf.check for comparison), the inferred \
+         stack-depth certificate is compared with the real VM's five stack depths before every executed instruction, and the global machine \
+         with recorded heights (wfm.run) is run along the executed pcs, its absolute depths and both address stacks compared with the real \
+         ones before every executed instruction. distinct = distinct program texts; \
          non-trivial = more than 3 instructions.",
     );
     let thorough = rep.is_thorough();
@@ -114,6 +522,26 @@ fn main() {
         programs.push((rb_harness::gen_prog::grid(&mut rng), "grid"));
     }
     rep.bump_by("programs.grid", n_grid as u64);
+    let n_marks = if thorough { 3000 } else { 400 };
+    for _ in 0..n_marks {
+        programs.push((marks_program(&mut rng), "marks"));
+    }
+    rep.bump_by("programs.marks", n_marks as u64);
+    // quick: a third of the combinations (which third depends on the seed); thorough: all of them
+    let all_faults = fault_programs();
+    let n_all_faults = all_faults.len();
+    let offset = (rng.seed() % 3) as usize;
+    let mut n_faults = 0u64;
+    for (i, (_, t)) in all_faults.into_iter().enumerate() {
+        if thorough || i % 3 == offset {
+            programs.push((t, "faults"));
+            n_faults += 1;
+        }
+    }
+    rep.bump_by("programs.faults", n_faults);
+    if thorough {
+        rep.exhaustive_parts.push(format!("faults: all {} combinations of position x fault x context x handler mode", n_all_faults));
+    }
 
     // compile everything with the real generator
     let mut compiled = vec![];
@@ -123,6 +551,17 @@ fn main() {
             Ok(Ok((res, udt))) => compiled.push((text.clone(), *origin, res, udt)),
             Ok(Err(_)) => {
                 rep.bump("rejected-by-front-end");
+                if *origin == "faults" || *origin == "marks" {
+                    rep.case(Some(text.clone()));
+                    rep.fail(Failure {
+                        kind: Kind::ModelVsImpl,
+                        signature: format!("family-program-rejected:{}", origin),
+                        input: text.clone(),
+                        implementation: "rejected by the front end".into(),
+                        expected: "every program of the directed families is an accepted program".into(),
+                        note: "the family is off".into(),
+                    });
+                }
             }
             Err(_) => {
                 rep.case(Some(text.clone()));
@@ -137,21 +576,28 @@ fn main() {
             }
         }
     }
-    let reqs: Vec<String> = compiled
-        .iter()
-        .map(|(_, _, res, _)| {
-            let (code, addrs) = instr_sx::program(res);
-            format!("(wf.check {} {})", code, addrs)
-        })
-        .collect();
-    let answers = ask(&reqs);
+    let mut codes: Vec<String> = vec![];
+    let mut reqs: Vec<String> = vec![];
+    for (_, _, res, _) in compiled.iter() {
+        let (code, addrs) = instr_sx::program(res);
+        reqs.push(format!("(wfm.check {} {})", code, addrs));
+        reqs.push(format!("(wf.check {} {})", code, addrs));
+        codes.push(code);
+    }
+    let both = ask(&reqs);
+    let answers: Vec<String> = both.iter().step_by(2).cloned().collect();
+    let old_answers: Vec<String> = both.iter().skip(1).step_by(2).cloned().collect();
+    drop(both);
+    // requests for the global machine (`wfm.run`), flushed in batches
+    let mut run_reqs: Vec<(String, String)> = vec![];
+    let mut run_bytes = 0usize;
     let names = ["targets-resolved", "labels-unique", "terminators", "branches-local", "statement-addresses", "stack-certificate"];
     for (k, (text, origin, res, udt)) in compiled.into_iter().enumerate() {
         let n_instr = res.instructions.len();
         rep.case(if n_instr > 3 { Some(text.clone()) } else { None });
         rep.bump(&format!("shape.{}", shape_signature(&text)));
-        let (flags, status, cert) = parse_cert(&answers[k]);
-        if answers[k].starts_with("(bad-op") {
+        let (flags, strict, reliant, status, cert) = parse_cert_m(&answers[k]);
+        if answers[k].starts_with("(bad-op") || old_answers[k].starts_with("(bad-op") {
             rep.fail(Failure {
                 kind: Kind::ModelVsImpl,
                 signature: "unreadable-instruction-list".into(),
@@ -187,7 +633,54 @@ fn main() {
                 });
             }
         }
+        // EXIT SUB / FUNCTION still pops what its procedure pushed: every PopRet at relative depth zero
+        if strict == Some(false) {
+            rep.fail(Failure {
+                kind: Kind::ImplVsProperty,
+                signature: "static:popret-not-at-depth-zero".into(),
+                input: text.clone(),
+                implementation: "a covered PopRet sits at non-zero certified relative depth".into(),
+                expected: "the generator pops the FOR frames and SELECT selectors of the procedure before PopRet".into(),
+                note: format!("origin={}", origin),
+            });
+        }
+        if reliant > 0 {
+            rep.bump("static.programs-with-return-relying-on-restore");
+        }
+        // the old checker may differ from the new one in ONE way: it refuses a Return at non-zero relative depth
+        {
+            let (old_flags, old_status, _) = parse_cert(&old_answers[k]);
+            let old_ok = old_flags.get(5).copied().unwrap_or(false);
+            let new_ok = flags.get(5).copied().unwrap_or(false);
+            let mut explained = old_ok == new_ok;
+            if !old_ok && new_ok && reliant > 0 {
+                let parts: Vec<&str> = old_status.trim_matches(|c| c == '(' || c == ')').split(' ').collect();
+                if parts.len() >= 3 && parts[1] == "unbalanced-exit" {
+                    let pc: usize = parts[2].parse().unwrap_or(usize::MAX);
+                    if matches!(res.instructions.get(pc).map(|ip| &ip.element), Some(Instruction::Return(_))) {
+                        explained = true;
+                        rep.bump("static.old-checker-refuses-return-off-depth-zero");
+                    }
+                }
+            }
+            if !old_ok && !new_ok {
+                explained = true;
+            }
+            if !explained {
+                rep.fail(Failure {
+                    kind: Kind::ModelVsImpl,
+                    signature: "static:old-and-new-checker-differ".into(),
+                    input: text.clone(),
+                    implementation: format!("wf.check {} / wfm.check {}", old_status, status),
+                    expected: "the two checkers differ only at a Return executed at non-zero relative depth".into(),
+                    note: format!("origin={}", origin),
+                });
+            }
+        }
         if k < 2 {
+            rep.sample(J::s(text.clone()));
+        }
+        if origin == "marks" && k % 97 == 0 {
             rep.sample(J::s(text.clone()));
         }
         if status != "ok" || corpus::needs_real_devices(&text) {
@@ -212,24 +705,56 @@ fn main() {
                 }
             }
         }
-        let snaps: Rc<RefCell<Vec<(usize, Depth, usize, usize, bool)>>> = Rc::new(RefCell::new(vec![]));
+        let snaps: Rc<RefCell<Vec<Snap>>> = Rc::new(RefCell::new(vec![]));
+        let return_label: Vec<bool> = res.instructions.iter().map(|ip| matches!(ip.element, Instruction::Return(Some(_)))).collect();
+        // what a successful execution of the instruction can be followed by, as far as the instruction alone
+        // says (None: depends on the address stacks, see `legit_next`)
+        let static_succ: Vec<Option<Vec<usize>>> = res
+            .instructions
+            .iter()
+            .enumerate()
+            .map(|(i, ip)| match &ip.element {
+                Instruction::Jump(a) => Some(vec![a.address()]),
+                Instruction::JumpIfFalse(a) => Some(vec![i + 1, a.address()]),
+                Instruction::GoSub(a) => Some(vec![a.address()]),
+                Instruction::Return(Some(a)) => Some(vec![a.address()]),
+                Instruction::Return(None) | Instruction::PopRet => None,
+                Instruction::Halt => Some(vec![]),
+                Instruction::Resume | Instruction::ResumeNext | Instruction::ResumeLabel(_) => None,
+                _ => Some(vec![i + 1]),
+            })
+            .collect();
+        let resume_kind: Vec<u8> = res
+            .instructions
+            .iter()
+            .map(|ip| match ip.element {
+                Instruction::Resume | Instruction::ResumeNext => 1,
+                Instruction::ResumeLabel(_) => 2,
+                _ => 0,
+            })
+            .collect();
+        let statement_addresses: Vec<usize> = res.statement_addresses.clone();
+        let plain_jump: Vec<bool> = res.instructions.iter().map(|ip| matches!(ip.element, Instruction::Jump(_))).collect();
         let snaps2 = snaps.clone();
         let obs = Box::new(move |s: &Snapshot| {
             let mut v = snaps2.borrow_mut();
             if v.len() < 20_000 {
-                v.push((
-                    s.pc,
-                    Depth {
+                v.push(Snap {
+                    pc: s.pc,
+                    d: Depth {
                         v: s.value_stack as i64,
                         r: s.register_stack as i64,
                         c: s.ctx_states.len() as i64,
                         p: s.var_path_stack as i64,
                         b: s.by_ref_stack as i64,
                     },
-                    s.return_address_stack.len(),
-                    s.go_sub_address_stack.len(),
-                    s.last_error_address.is_some() || s.last_error_code.is_some(),
-                ));
+                    rets: s.return_address_stack.clone(),
+                    gosubs: s.go_sub_address_stack.clone(),
+                    err_code: s.last_error_code,
+                    err_addr: s.last_error_address,
+                    handler_kind: s.handler_kind,
+                    handler_address: s.handler_address,
+                });
             }
         });
         if let Ok(tp) = std::env::var("VERIF_C15_TRACE") {
@@ -244,15 +769,45 @@ fn main() {
         let trace = snaps.borrow();
         rep.bump_by("dynamic.instructions-observed", trace.len() as u64);
         // activations: a call (PushRet + Jump) or a GOSUB starts a new one whose base is fixed by its
-        // first observed instruction; PopRet / RETURN end it. Error edges are outside the static model:
-        // tracing stops at the first handled error.
-        // (kind of activation: 0 = main module, 5 = procedure call, 3 = GOSUB; its base depths)
-        let mut acts: Vec<(u8, Option<Depth>)> = vec![(0, None)];
-        for (pc, d, _rd, _gd, err) in trace.iter() {
-            if *err {
-                break;
+        // first observed instruction; PopRet / RETURN end it.
+        // (kind of activation: 0 = main module, 5 = procedure call, 3 = GOSUB, 7 = error handler; its base depths)
+        //
+        // Error edges are outside the static model, but where execution CONTINUES after a handled error is
+        // checked: at the resume point (the next statement under ON ERROR RESUME NEXT, the target of RESUME /
+        // RESUME NEXT after a handler) no stack of the interrupted activation may be LOWER than
+        // base + certificate (what the continuing code is going to pop must be there: `resume-point-deficit`).
+        // A stack may be HIGHER: the VM leaves the operands / variable paths of the abandoned statement where
+        // they are (counted as `resume-point-excess`); the activation's base is moved up by the excess and the
+        // run must follow the certificate from there on.
+        // What an abandoned statement left on a stack that the exit of its activation does not cut back (context,
+        // by-ref; variable paths at RETURN) is still there when the caller goes on: the third component of an
+        // activation record is the excess accumulated in it, handed down at PopRet / RETURN.
+        let zero = Depth { v: 0, r: 0, c: 0, p: 0, b: 0 };
+        let mut acts: Vec<(u8, Option<Depth>, Depth)> = vec![(0, None, zero.clone())];
+        let hand_down = |acts: &mut Vec<(u8, Option<Depth>, Depth)>, left: Depth| {
+            if let Some(top) = acts.last_mut() {
+                if let Some(b) = top.1.as_mut() {
+                    b.c += left.c;
+                    b.p += left.p;
+                    b.b += left.b;
+                }
+                top.2.c += left.c;
+                top.2.p += left.p;
+                top.2.b += left.b;
             }
+        };
+        let mut resume_check = false;
+        let mut handled_errors = 0u64;
+        let is_family_faults = origin == "faults";
+        for (idx, sn) in trace.iter().enumerate() {
+            let (pc, d) = (&sn.pc, &sn.d);
             let Some(Some(rel)) = cert.get(*pc) else {
+                // a resume point that only an error edge reaches (the `Jump` over a block whose header failed:
+                // `loops.rs` for-header, `select_case.rs` selector): a Jump moves no stack, the check is made where it lands
+                if resume_check && kinds[*pc] == 0 && plain_jump[*pc] {
+                    rep.bump("dynamic.resume-points-on-error-only-jump");
+                    continue;
+                }
                 rep.fail(Failure {
                     kind: Kind::ImplVsProperty,
                     signature: "dynamic:executed-pc-not-covered".into(),
@@ -267,11 +822,44 @@ fn main() {
             let top = &mut acts.last_mut().unwrap().1;
             match top {
                 None => *top = Some(base),
+                Some(b2) if resume_check => {
+                    // the resume point of a handled error
+                    let pairs = [("value", base.v - b2.v), ("register", base.r - b2.r), ("context", base.c - b2.c), ("var-path", base.p - b2.p), ("by-ref", base.b - b2.b)];
+                    let deficit: Vec<&str> = pairs.iter().filter(|(_, x)| *x < 0).map(|(n, _)| *n).collect();
+                    if !deficit.is_empty() {
+                        rep.fail(Failure {
+                            kind: Kind::ImplVsProperty,
+                            signature: format!("dynamic:resume-point-deficit:{}", deficit.join("+")),
+                            input: text.clone(),
+                            implementation: format!(
+                                "execution continues after a handled error at pc {} with depths {:?}; the certificate there is {:?} on activation base {:?}",
+                                pc, d, rel, b2
+                            ),
+                            expected: "where execution continues after a handled error every stack holds at least what the code from there on is certified to find (no later pop of something that is not there / that belongs to an enclosing construct)".into(),
+                            note: "a resume point placed before the pops of something the failed statement never pushed".into(),
+                        });
+                        break;
+                    }
+                    for (n, x) in pairs.iter() {
+                        if *x > 0 {
+                            rep.bump(&format!("dynamic.resume-point-excess.{}", n));
+                        }
+                    }
+                    rep.bump("dynamic.resume-points-checked");
+                    let grown = Depth { v: base.v - b2.v, r: base.r - b2.r, c: base.c - b2.c, p: base.p - b2.p, b: base.b - b2.b };
+                    *b2 = base;
+                    let ex = &mut acts.last_mut().unwrap().2;
+                    ex.v += grown.v;
+                    ex.r += grown.r;
+                    ex.c += grown.c;
+                    ex.p += grown.p;
+                    ex.b += grown.b;
+                }
                 Some(b2) => {
                     if *b2 != base {
                         rep.fail(Failure {
                             kind: Kind::ImplVsProperty,
-                            signature: "dynamic:depth-differs-from-certificate".into(),
+                            signature: (if handled_errors > 0 { "dynamic:depth-differs-from-certificate:after-handled-error" } else { "dynamic:depth-differs-from-certificate" }).into(),
                             input: text.clone(),
                             implementation: format!("at pc {} depths {:?}, certificate {:?}, activation base {:?}", pc, d, rel, b2),
                             expected: "depth = activation base + certified relative depth".into(),
@@ -281,24 +869,88 @@ fn main() {
                     }
                 }
             }
+            resume_check = false;
+            let Some(next) = trace.get(idx + 1) else { break };
+            // did this instruction fail (a handled error: the run goes on)?
+            let legit_next: Vec<usize> = match &static_succ[*pc] {
+                Some(v) => v.clone(),
+                None => match kinds[*pc] {
+                    2 => sn.rets.last().map(|a| vec![*a]).unwrap_or_default(),
+                    4 => sn.gosubs.last().map(|a| vec![*a + 1]).unwrap_or_default(),
+                    _ => vec![next.pc], // Resume*: anywhere
+                },
+            };
+            let new_error_state = next.err_code.is_some() && (next.err_code != sn.err_code || next.err_addr != sn.err_addr);
+            let mut failed = resume_kind[*pc] == 0 && (!legit_next.contains(&next.pc) || new_error_state);
+            if !failed && resume_kind[*pc] == 0 && sn.handler_kind != 0 && next.err() && kinds[*pc] == 0 {
+                // the remaining case: an error of the same code as the one before, going to where a successful step
+                // goes as well (the failing instruction is the last one of its statement).  Told apart by the depths:
+                // a successful step follows the certificate
+                let lands_on_statement = statement_addresses.binary_search(&next.pc).is_ok() || (sn.handler_kind == 2 && next.pc == sn.handler_address);
+                if lands_on_statement {
+                    if let (Some(Some(rel2)), Some(b2)) = (cert.get(next.pc), acts.last().unwrap().1.as_ref()) {
+                        let nb = Depth { v: next.d.v - rel2.v, r: next.d.r - rel2.r, c: next.d.c - rel2.c, p: next.d.p - rel2.p, b: next.d.b - rel2.b };
+                        if nb != *b2 {
+                            failed = true;
+                        }
+                    }
+                }
+            }
+            if failed {
+                handled_errors += 1;
+                if sn.handler_kind == 2 && next.pc == sn.handler_address {
+                    acts.push((7, None, zero.clone())); // the handler runs on top of the interrupted activation
+                } else if sn.handler_kind == 1 {
+                    resume_check = true; // ON ERROR RESUME NEXT: the next statement of the same activation
+                } else {
+                    break; // not a handled error after all (the run ends / something unexpected)
+                }
+                continue;
+            }
+            if resume_kind[*pc] == 1 {
+                // RESUME / RESUME NEXT: back in the interrupted activation
+                if acts.len() > 1 && acts.last().unwrap().0 == 7 {
+                    acts.pop();
+                    resume_check = true;
+                    continue;
+                }
+                break;
+            }
+            if resume_kind[*pc] == 2 {
+                break; // RESUME label unwinds to the module level: not followed here
+            }
             match kinds[*pc] {
-                5 => acts.push((5, None)), // call
-                3 => acts.push((3, None)), // gosub
+                5 => acts.push((5, None, zero.clone())), // call
+                3 => acts.push((3, None, zero.clone())), // gosub
                 2 => {
                     // PopRet leaves the procedure, and with it every GOSUB routine still active inside it
                     // (EXIT SUB in a GOSUB routine): the caller must find its depths as they were at the call
+                    // (PopRet cuts the value, register and variable-path stacks back; not context and by-ref)
+                    let mut left = zero.clone();
                     while acts.len() > 1 && acts.last().unwrap().0 == 3 {
-                        acts.pop();
+                        let a = acts.pop().unwrap();
+                        left.c += a.2.c;
+                        left.b += a.2.b;
                     }
-                    if acts.len() > 1 {
-                        acts.pop();
+                    if acts.len() > 1 && acts.last().unwrap().0 == 5 {
+                        let a = acts.pop().unwrap();
+                        left.c += a.2.c;
+                        left.b += a.2.b;
+                        hand_down(&mut acts, left);
                     } else {
                         break;
                     }
                 }
                 4 => {
                     if acts.len() > 1 && acts.last().unwrap().0 == 3 {
-                        acts.pop();
+                        // (RETURN cuts the value and register stacks back; not variable paths, context, by-ref)
+                        let a = acts.pop().unwrap();
+                        hand_down(&mut acts, Depth { v: 0, r: 0, c: a.2.c, p: a.2.p, b: a.2.b });
+                        // RETURN label: the activation that issued the GOSUB is replaced by a new one at the label,
+                        // entered with the depths the VM restored (its base is fixed by the next observation)
+                        if return_label[*pc] {
+                            acts.last_mut().unwrap().1 = None;
+                        }
                     } else {
                         break; // RETURN without GOSUB in this activation (a run-time error, or a RETURN to a caller's GOSUB)
                     }
@@ -306,7 +958,54 @@ fn main() {
                 _ => {}
             }
         }
+        if handled_errors > 0 {
+            rep.bump("dynamic.programs-followed-across-handled-errors");
+            rep.bump_by("dynamic.handled-errors-followed", handled_errors);
+        }
+        if is_family_faults {
+            if handled_errors == 0 {
+                rep.fail(Failure {
+                    kind: Kind::ModelVsImpl,
+                    signature: "dynamic:faults-family-program-without-handled-error".into(),
+                    input: text.clone(),
+                    implementation: "no handled error was observed".into(),
+                    expected: "every program of the family raises (and handles) at least one run-time error".into(),
+                    note: "the family or the detection of error edges is off".into(),
+                });
+            }
+            if run.is_err() {
+                rep.fail(Failure {
+                    kind: Kind::ImplVsProperty,
+                    signature: "dynamic:vm-panic-after-handled-error".into(),
+                    input: text.clone(),
+                    implementation: "the VM panicked (e.g. `value_stack underflow!`)".into(),
+                    expected: "no instruction after a handled error underflows a stack".into(),
+                    note: String::new(),
+                });
+            }
+        }
         rep.bump("dynamic.programs-traced");
+        // the global machine of Thm/C15Marks.lean on the same observations (up to the first handled error)
+        let mut req = format!("(wfm.run {}", codes[k]);
+        let mut n_obs = 0u64;
+        for sn in trace.iter() {
+            if sn.err() {
+                break;
+            }
+            let (pc, d, rets, gosubs) = (&sn.pc, &sn.d, &sn.rets, &sn.gosubs);
+            let list = |v: &Vec<usize>| v.iter().rev().map(|x| x.to_string()).collect::<Vec<_>>().join(" ");
+            req.push_str(&format!(" ({} {} {} {} {} {} ({}) ({}))", pc, d.v, d.r, d.c, d.p, d.b, list(rets), list(gosubs)));
+            n_obs += 1;
+        }
+        req.push(')');
+        rep.bump_by("dynamic.marks.observations-sent", n_obs);
+        run_bytes += req.len();
+        run_reqs.push((text.clone(), req));
+        if run_bytes > 24_000_000 {
+            flush_runs(&mut rep, &mut run_reqs);
+            run_bytes = 0;
+        }
     }
+    flush_runs(&mut rep, &mut run_reqs);
     rep.finish();
 }
